@@ -307,7 +307,54 @@ def do_filters(req):
     return out
 
 
-HANDLERS.update({'filters': do_filters})
+def do_filters_sequence(req):
+    """several listings requested one after the other on ONE parser object: each must equal the specification's selection"""
+    import pykdebugparser.pykdebugparser as M
+    cfg = req['config']
+    stream = _demo_stream(req.get('eventid', 0x40c0000), 5) + [_mk_log(5, 'p', 1), _mk_log(6, 'q', 2)]
+
+    class FakeParser:
+        def __init__(self, *a, **k):
+            pass
+
+        def parse(self, reader):
+            return iter(list(stream))
+    M.KdBufParser = FakeParser
+    p = M.PyKdebugParser()
+    p.filter_tid, p.filter_process = cfg.get('filter_tid'), cfg.get('filter_process')
+    p.filter_class, p.filter_subclass = list(cfg.get('filter_class') or []), list(cfg.get('filter_subclass') or [])
+    done = []
+    for meth in req['methods']:
+        try:
+            got = list(getattr(p, meth)(None))
+        except BaseException as ex:  # noqa
+            return {'violates': True, 'what': '%s after %s raised %s: %s' % (meth, done, type(ex).__name__, ex)}
+        if meth in ('kevents', 'os_log_events'):
+            exp = [y for y in stream if spec_keep(meth, cfg, y)]
+            if [id(y) for y in got] != [id(y) for y in exp]:
+                return {'violates': True, 'what': '%s with the filters %r, requested after %s on the same parser object, lists %d items %r; the filter selects %d: %r'
+                                                  % (meth, cfg, done or 'nothing', len(got), [repr(y)[:60] for y in got][:6], len(exp), [repr(y)[:60] for y in exp][:6])}
+        done.append(meth)
+    return {'violates': False}
+
+
+def do_filters_search(req):
+    tried = 0
+    for fc, fsc in (([4], []), ([], []), ([7], []), ([], [0x040c]), ([3, 4], []), ([31], [0x0703])):
+        for tid in (None, 5, 4):
+            for proc in (None, 'p', '2'):
+                cfg = {'filter_tid': tid, 'filter_process': proc, 'filter_class': fc, 'filter_subclass': fsc}
+                for methods in (['kevents'], ['os_log_events'], ['traces', 'kevents'], ['kevents', 'traces', 'kevents'], ['traces', 'os_log_events'],
+                                ['callstacks', 'kevents']):
+                    tried += 1
+                    r = do_filters_sequence({'config': cfg, 'methods': methods})
+                    if r['violates']:
+                        r['request'] = {'kind': 'filters_sequence', 'config': cfg, 'methods': methods}
+                        return {'tried': tried, 'bound': 'grid of filter settings x request sequences on one parser object over the demonstration stream', 'found': r}
+    return {'tried': tried, 'bound': 'grid of filter settings x request sequences on one parser object over the demonstration stream', 'found': None}
+
+
+HANDLERS.update({'filters': do_filters, 'filters_sequence': do_filters_sequence, 'filters_search': do_filters_search})
 
 
 def _demo_stream(eid, tid):
@@ -457,7 +504,8 @@ def do_pairing_case(req):
     codes = _cached_codes()
     p = TracesParser(codes, {}, {})
     stream = [tuple(x) for x in req['stream']]
-    evs = [_mk_kevent(c, t, q, (i + 1, 2, 3, 4), ts=i) for i, (t, c, q) in enumerate(stream)]
+    # word 0 names one of the stream's threads (thread-terminate and similar records refer to a thread by their first word)
+    evs = [_mk_kevent(c, t, q, (11 + ((i + 1) % 2), 2, 3, 4), ts=i) for i, (t, c, q) in enumerate(stream)]
     ids = {id(e): i for i, e in enumerate(evs)}
     dom = lambda c: 'trace' if codes.get(c) in trace_handlers else 'event'
     dec = lambda c: codes.get(c) in p.handlers
@@ -1712,3 +1760,60 @@ def do_history_case(req):
 
 
 HANDLERS.update({'history_texts': do_history_texts, 'history_case': do_history_case})
+
+
+# ------------------------------------------------------------------------------ seek_until refute mode (C03 / C06)
+def do_seek_case(req):
+    from pykdebugparser.kd_buf_parser import seek_until
+    data = bytes.fromhex(req['data'])
+    pat = bytes.fromhex(req['pattern'])
+    start = req.get('start', 0)
+    r = _BudgetReader(data, 8 * len(data) + 200)
+    r.seek(start)
+    first = data.find(pat, start)
+    try:
+        seek_until(r, pat)
+        pos = r.tell()
+    except EOFError:
+        pos = None
+    except TimeoutError as ex:
+        return {'violates': True, 'what': 'seek_until does not stop on %d bytes: %s' % (len(data), ex)}
+    except BaseException as ex:  # noqa
+        return {'violates': True, 'what': 'seek_until raised %s: %s' % (type(ex).__name__, ex)}
+    want = None if first < 0 else first + len(pat)
+    bad = pos != want
+    return {'violates': bad, 'what': 'a %d-byte pattern first occurs at offset %s of a %d-byte stream (search from %d): the stream is left at %s, expected %s'
+                                     % (len(pat), first if first >= 0 else None, len(data), start, pos, want) if bad else ''}
+
+
+def do_seek_search(req):
+    pats = [b'stackshot_out_fl', bytes.fromhex('1e00000000000000'), bytes.fromhex('1d00000000000000')]
+    tried = 0
+    bases = [0, 1, 7, 8, 15, 16, 17, 100]
+    for blk in (512, 1024, 4096, 8192, 65536):
+        for k in (1, 2):
+            bases += list(range(blk * k - 20, blk * k + 3))
+    for pat in pats:
+        for off in sorted(set(b for b in bases if b >= 0)):
+            for filler in (b'\x01', pat[:1], pat[:-1]):
+                body = (filler * (off // len(filler) + 1))[:off]
+                if body.find(pat) >= 0 or (body + pat).find(pat) != off:
+                    continue
+                data = body + pat + b'\x02' * 40
+                tried += 1
+                r = do_seek_case({'data': data.hex(), 'pattern': pat.hex()})
+                if r['violates']:
+                    r['request'] = {'kind': 'seek_case', 'data': data.hex(), 'pattern': pat.hex()}
+                    return {'tried': tried, 'bound': 'patterns at offsets around 0 and multiples of 512..65536, three fillers', 'found': r}
+        # absent pattern: EOFError expected
+        for n in (0, 5, 4096, 4100):
+            tried += 1
+            data = b'\x01' * n
+            r = do_seek_case({'data': data.hex(), 'pattern': pat.hex()})
+            if r['violates']:
+                r['request'] = {'kind': 'seek_case', 'data': data.hex(), 'pattern': pat.hex()}
+                return {'tried': tried, 'bound': 'patterns at offsets around 0 and multiples of 512..65536, three fillers', 'found': r}
+    return {'tried': tried, 'bound': 'patterns at offsets around 0 and multiples of 512..65536, three fillers', 'found': None}
+
+
+HANDLERS.update({'seek_case': do_seek_case, 'seek_search': do_seek_search})
